@@ -517,6 +517,404 @@ pub fn apply_nonmem_edit(inst: &Inst, root_value: [u8; 32], p: &mut NonMembershi
     Some(())
 }
 
+// ---- directory-level adversary (mirror of lean/AkdModel/AdvDir.lean) ----
+
+async fn vrf_bytes(cfg: &str, u: &AkdLabel, fresh: VersionFreshness, ver: u64) -> Option<Vec<u8>> {
+    let vrf = HardCodedAkdVRF {};
+    with_cfg!(cfg, TC => vrf.get_label_proof::<TC>(u, fresh, ver).await.ok().map(|p| p.to_bytes().to_vec()))
+}
+
+async fn vrf_node_label(cfg: &str, u: &AkdLabel, fresh: VersionFreshness, ver: u64) -> Option<NodeLabel> {
+    let vrf = HardCodedAkdVRF {};
+    with_cfg!(cfg, TC => vrf.get_node_label::<TC>(u, fresh, ver).await.ok())
+}
+
+async fn nonce_for(cfg: &str, label: &NodeLabel, ver: u64, value: &AkdValue) -> Option<Vec<u8>> {
+    let raw = HardCodedAkdVRF {}.retrieve().await.ok()?;
+    with_cfg!(cfg, TC => {
+        let key = TC::hash(&raw);
+        Some(TC::get_commitment_nonce(&key, label, ver, value).to_vec())
+    })
+}
+
+fn marker_version(v: u64) -> u64 {
+    if v == 0 { 0 } else { 1u64 << (63 - v.leading_zeros()) }
+}
+
+/// the lookup proof a server would produce for the stored state of version `v`
+async fn lookup_for(inst: &Inst, u: &AkdLabel, v: u64) -> Option<LookupProof> {
+    use akd::storage::types::ValueStateRetrievalFlag;
+    let st = inst.storage.get_user_state(u, ValueStateRetrievalFlag::SpecificVersion(v)).await.ok()?;
+    let cfg = inst.cfg.as_str();
+    let mv = marker_version(v);
+    let le = vrf_node_label(cfg, u, VersionFreshness::Fresh, v).await?;
+    let lm = vrf_node_label(cfg, u, VersionFreshness::Fresh, mv).await?;
+    let ln = vrf_node_label(cfg, u, VersionFreshness::Stale, v).await?;
+    Some(LookupProof {
+        epoch: st.epoch,
+        value: st.value.clone(),
+        version: v,
+        existence_vrf_proof: vrf_bytes(cfg, u, VersionFreshness::Fresh, v).await?,
+        existence_proof: inst.gen_mem(le).await?,
+        marker_vrf_proof: vrf_bytes(cfg, u, VersionFreshness::Fresh, mv).await?,
+        marker_proof: inst.gen_mem(lm).await?,
+        freshness_vrf_proof: vrf_bytes(cfg, u, VersionFreshness::Stale, v).await?,
+        freshness_proof: inst.gen_nonmem(ln).await?,
+        commitment_nonce: nonce_for(cfg, &le, v, &st.value).await?,
+    })
+}
+
+async fn anchored_at(inst: &Inst, label: NodeLabel, k: usize) -> Option<NonMembershipProof> {
+    let mp = inst.gen_mem(label).await?;
+    let sp = mp.sibling_proofs.get(k)?;
+    let mut np = inst.gen_nonmem(sp.label).await?;
+    np.label = label;
+    Some(np)
+}
+
+async fn apply_lookup_edit(inst: &Inst, u: &AkdLabel, p: &mut LookupProof, tok: &str) -> Result<(), Option<()>> {
+    // Err(Some(())) = the edit cannot be constructed here ("err"); Err(None) = malformed token (bad-op)
+    let parts: Vec<&str> = tok.split(':').collect();
+    let rv = inst.root_value().await.ok_or(Some(()))?;
+    match parts.as_slice() {
+        ["version", v] => {
+            let v: u64 = v.parse().map_err(|_| None)?;
+            *p = lookup_for(inst, u, v).await.ok_or(Some(()))?;
+        }
+        ["fresh.anchor", k] => {
+            let k: usize = k.parse().map_err(|_| None)?;
+            p.freshness_proof = anchored_at(inst, p.freshness_proof.label, k).await.ok_or(Some(()))?;
+        }
+        ["value", v] => p.value = AkdValue(parse_hex(v).ok_or(None)?),
+        ["epoch", e] => p.epoch = e.parse().map_err(|_| None)?,
+        ["vfield", v] => p.version = v.parse().map_err(|_| None)?,
+        ["nonce.zero"] => p.commitment_nonce = vec![0u8; 32],
+        ["marker.rootproof"] => p.marker_proof = MembershipProof { label: p.marker_proof.label, hash_val: AzksValue(rv), sibling_proofs: vec![] },
+        ["exist.rootproof"] => p.existence_proof = MembershipProof { label: p.existence_proof.label, hash_val: AzksValue(rv), sibling_proofs: vec![] },
+        ["swap.exist", u2] | ["swap.marker", u2] | ["swap.fresh", u2] => {
+            let u2 = AkdLabel(parse_hex(u2).ok_or(None)?);
+            let (q, _, _) = inst.lookup(&u2).await.ok_or(Some(()))?;
+            match parts[0] {
+                "swap.exist" => {
+                    p.existence_proof = q.existence_proof;
+                    p.existence_vrf_proof = q.existence_vrf_proof;
+                }
+                "swap.marker" => {
+                    p.marker_proof = q.marker_proof;
+                    p.marker_vrf_proof = q.marker_vrf_proof;
+                }
+                _ => {
+                    p.freshness_proof = q.freshness_proof;
+                    p.freshness_vrf_proof = q.freshness_vrf_proof;
+                }
+            }
+        }
+        _ => return Err(None),
+    }
+    Ok(())
+}
+
+/// marker proofs for the version range of `ups`, generated honestly
+async fn regen_markers(inst: &Inst, u: &AkdLabel, ups: Vec<UpdateProof>) -> Option<HistoryProof> {
+    let (cur, _) = inst.epoch_hash().await?;
+    let cfg = inst.cfg.as_str();
+    let mut hp = HistoryProof {
+        update_proofs: ups,
+        past_marker_vrf_proofs: vec![],
+        existence_of_past_marker_proofs: vec![],
+        future_marker_vrf_proofs: vec![],
+        non_existence_of_future_marker_proofs: vec![],
+    };
+    let vs: Vec<u64> = hp.update_proofs.iter().map(|x| x.version).collect();
+    if vs.is_empty() {
+        return Some(hp);
+    }
+    let (s, e) = (*vs.iter().min()?, *vs.iter().max()?);
+    let (past, future) = akd_core::utils::get_marker_versions(s, e, cur);
+    for v in past {
+        let l = vrf_node_label(cfg, u, VersionFreshness::Fresh, v).await?;
+        hp.past_marker_vrf_proofs.push(vrf_bytes(cfg, u, VersionFreshness::Fresh, v).await?);
+        hp.existence_of_past_marker_proofs.push(inst.gen_mem(l).await?);
+    }
+    for v in future {
+        let l = vrf_node_label(cfg, u, VersionFreshness::Fresh, v).await?;
+        hp.future_marker_vrf_proofs.push(vrf_bytes(cfg, u, VersionFreshness::Fresh, v).await?);
+        hp.non_existence_of_future_marker_proofs.push(inst.gen_nonmem(l).await?);
+    }
+    Some(hp)
+}
+
+fn drop_at<T>(v: &mut Vec<T>, i: usize) {
+    if i < v.len() {
+        v.remove(i);
+    }
+}
+
+async fn apply_hist_edit(inst: &Inst, u: &AkdLabel, p: &mut HistoryProof, tok: &str) -> Result<(), Option<()>> {
+    let parts: Vec<&str> = tok.split(':').collect();
+    let num = |s: &str| -> Result<usize, Option<()>> { s.parse().map_err(|_| None) };
+    let rv = inst.root_value().await.ok_or(Some(()))?;
+    match parts.as_slice() {
+        ["drop.newest", k] => {
+            let k = num(k)?.min(p.update_proofs.len());
+            let ups = p.update_proofs[k..].to_vec();
+            *p = regen_markers(inst, u, ups).await.ok_or(Some(()))?;
+        }
+        ["drop.oldest", k] => {
+            let n = p.update_proofs.len().saturating_sub(num(k)?);
+            let ups = p.update_proofs[..n].to_vec();
+            *p = regen_markers(inst, u, ups).await.ok_or(Some(()))?;
+        }
+        ["gap", i] => drop_at(&mut p.update_proofs, num(i)?),
+        ["dup", i] => {
+            let i = num(i)?;
+            if let Some(x) = p.update_proofs.get(i).cloned() {
+                p.update_proofs.insert(i + 1, x);
+            }
+        }
+        ["swapupd", i, j] => {
+            let (i, j) = (num(i)?, num(j)?);
+            if i < p.update_proofs.len() && j < p.update_proofs.len() {
+                p.update_proofs.swap(i, j);
+            }
+        }
+        ["value", i, v] => {
+            let v = parse_hex(v).ok_or(None)?;
+            if let Some(x) = p.update_proofs.get_mut(num(i)?) {
+                x.value = AkdValue(v);
+            }
+        }
+        ["epoch", i, e] => {
+            let e: u64 = e.parse().map_err(|_| None)?;
+            if let Some(x) = p.update_proofs.get_mut(num(i)?) {
+                x.epoch = e;
+            }
+        }
+        ["tomb", i] => {
+            if let Some(x) = p.update_proofs.get_mut(num(i)?) {
+                x.value = AkdValue(vec![]);
+            }
+        }
+        ["noprev", i] => {
+            if let Some(x) = p.update_proofs.get_mut(num(i)?) {
+                x.previous_version_proof = None;
+                x.previous_version_vrf_proof = None;
+            }
+        }
+        ["past.drop", i] => {
+            let i = num(i)?;
+            drop_at(&mut p.existence_of_past_marker_proofs, i);
+            drop_at(&mut p.past_marker_vrf_proofs, i);
+        }
+        ["future.drop", i] => {
+            let i = num(i)?;
+            drop_at(&mut p.non_existence_of_future_marker_proofs, i);
+            drop_at(&mut p.future_marker_vrf_proofs, i);
+        }
+        ["future.anchor", i, k] => {
+            let (i, k) = (num(i)?, num(k)?);
+            if let Some(np) = p.non_existence_of_future_marker_proofs.get(i).cloned() {
+                let forged = anchored_at(inst, np.label, k).await.ok_or(Some(()))?;
+                p.non_existence_of_future_marker_proofs[i] = forged;
+            }
+        }
+        ["past.rootproof", i] => {
+            if let Some(m) = p.existence_of_past_marker_proofs.get_mut(num(i)?) {
+                *m = MembershipProof { label: m.label, hash_val: AzksValue(rv), sibling_proofs: vec![] };
+            }
+        }
+        ["exist.rootproof", i] => {
+            if let Some(x) = p.update_proofs.get_mut(num(i)?) {
+                x.existence_proof = MembershipProof { label: x.existence_proof.label, hash_val: AzksValue(rv), sibling_proofs: vec![] };
+            }
+        }
+        _ => return Err(None),
+    }
+    Ok(())
+}
+
+pub fn apply_audit_edit(p: &mut SingleAppendOnlyProof, end_rebuilt: &mut bool, plus: &mut u64, tok: &str) -> Option<()> {
+    let parts: Vec<&str> = tok.split(':').collect();
+    let val32 = |h: &str| -> Option<AzksValue> {
+        let b = parse_hex(h)?;
+        if b.len() != 32 {
+            return None;
+        }
+        let mut a = [0u8; 32];
+        a.copy_from_slice(&b);
+        Some(AzksValue(a))
+    };
+    match parts.as_slice() {
+        ["ins.add", l, v] => p.inserted.push(AzksElement { label: parse_label(l)?, value: val32(v)? }),
+        ["ins.drop", j] => {
+            let j: usize = j.parse().ok()?;
+            if j < p.inserted.len() {
+                p.inserted.remove(j);
+            }
+        }
+        ["unch.drop", j] => {
+            let j: usize = j.parse().ok()?;
+            if j < p.unchanged_nodes.len() {
+                p.unchanged_nodes.remove(j);
+            }
+        }
+        ["ins.dup", j] => {
+            let j: usize = j.parse().ok()?;
+            if let Some(x) = p.inserted.get(j).cloned() {
+                p.inserted.push(x);
+            }
+        }
+        ["unch.dup", j] => {
+            let j: usize = j.parse().ok()?;
+            if let Some(x) = p.unchanged_nodes.get(j).cloned() {
+                p.unchanged_nodes.push(x);
+            }
+        }
+        ["unch.toins", j] => {
+            let j: usize = j.parse().ok()?;
+            if j < p.unchanged_nodes.len() {
+                let x = p.unchanged_nodes.remove(j);
+                p.inserted.push(x);
+            }
+        }
+        ["ins.tounch", j] => {
+            let j: usize = j.parse().ok()?;
+            if j < p.inserted.len() {
+                let x = p.inserted.remove(j);
+                p.unchanged_nodes.push(x);
+            }
+        }
+        ["ins.relabel", j, l] => {
+            let j: usize = j.parse().ok()?;
+            let l = parse_label(l)?;
+            if let Some(x) = p.inserted.get_mut(j) {
+                x.label = l;
+            }
+        }
+        ["unch.relabel", j, l] => {
+            let j: usize = j.parse().ok()?;
+            let l = parse_label(l)?;
+            if let Some(x) = p.unchanged_nodes.get_mut(j) {
+                x.label = l;
+            }
+        }
+        ["ins.ext", j, v] => {
+            let j: usize = j.parse().ok()?;
+            let v = val32(v)?;
+            if let Some(u) = p.unchanged_nodes.get(j) {
+                p.inserted.push(AzksElement { label: extend256(&u.label), value: v });
+            }
+        }
+        ["ins.copylabel", i, j] => {
+            let i: usize = i.parse().ok()?;
+            let j: usize = j.parse().ok()?;
+            if let Some(u) = p.unchanged_nodes.get(j).cloned() {
+                if let Some(x) = p.inserted.get_mut(i) {
+                    x.label = u.label;
+                }
+            }
+        }
+        ["ins.addprefix", j, n, v] => {
+            let j: usize = j.parse().ok()?;
+            let n: u32 = n.parse().ok()?;
+            let v = val32(v)?;
+            if let Some(u) = p.unchanged_nodes.get(j) {
+                p.inserted.push(AzksElement { label: u.label.get_prefix(n), value: v });
+            }
+        }
+        ["end", "rebuilt"] => *end_rebuilt = true,
+        ["epoch", d] => *plus += d.parse::<u64>().ok()?,
+        _ => return None,
+    }
+    Some(())
+}
+
+/// `l` followed by a one bit and zeros, 256 bits long (mirror of `Adv.extend256`)
+pub fn extend256(l: &NodeLabel) -> NodeLabel {
+    if l.label_len >= 256 {
+        return *l;
+    }
+    let n = l.get_prefix(l.label_len);
+    let mut v = n.label_val;
+    let i = l.label_len as usize;
+    v[i / 8] |= 1 << (7 - (i % 8));
+    NodeLabel::new(v, 256)
+}
+
+/// the auditor's rebuild with the public API: root hash and the leaf-type nodes that survive in the rebuilt tree
+pub async fn rebuild(cfg: &str, nodes: Vec<AzksElement>, latest_epoch: Option<u64>) -> Option<([u8; 32], Vec<AzksElement>)> {
+    let db = AsyncInMemoryDatabase::new();
+    let mgr = StorageManager::new_no_cache(db.clone());
+    with_cfg!(cfg, TC => {
+        let mut azks = Azks::new::<TC, _>(&mgr).await.ok()?;
+        if let Some(e) = latest_epoch {
+            azks.latest_epoch = e;
+        }
+        azks.batch_insert_nodes::<TC, _>(&mgr, nodes, InsertMode::Auditor, AzksParallelismConfig::disabled()).await.ok()?;
+        let h = azks.get_root_hash::<TC, _>(&mgr).await.ok()?;
+        // walk from the root: only reachable leaf-type nodes are committed
+        let recs = db.batch_get_all_direct().await.ok()?;
+        let mut map = std::collections::HashMap::new();
+        for r in recs {
+            if let DbRecord::TreeNode(t) = r {
+                map.insert(t.label, t.latest_node);
+            }
+        }
+        let mut out = vec![];
+        let mut stack = vec![NodeLabel::root()];
+        while let Some(l) = stack.pop() {
+            if let Some(n) = map.get(&l) {
+                if n.node_type == TreeNodeType::Leaf {
+                    out.push(AzksElement { label: n.label, value: n.hash });
+                }
+                if let Some(c) = n.left_child {
+                    stack.push(c);
+                }
+                if let Some(c) = n.right_child {
+                    stack.push(c);
+                }
+            }
+        }
+        Some((h, out))
+    })
+}
+
+/// every node of the real tree as of `epoch`: label -> (value a parent would hash, is_leaf)
+pub async fn real_nodes(inst: &Inst, epoch: u64) -> std::collections::HashMap<NodeLabel, ([u8; 32], bool)> {
+    let mut out = std::collections::HashMap::new();
+    let recs = inst.db.batch_get_all_direct().await.unwrap_or_default();
+    let mut map = std::collections::HashMap::new();
+    for r in recs {
+        if let DbRecord::TreeNode(t) = r {
+            if let Ok(n) = akd::tree_node::verif_determine_node_to_get(&t, epoch) {
+                if n.last_epoch <= epoch {
+                    map.insert(t.label, n);
+                }
+            }
+        }
+    }
+    // reachable from the root as of `epoch`
+    let mut stack = vec![NodeLabel::root()];
+    while let Some(l) = stack.pop() {
+        if let Some(n) = map.get(&l) {
+            let is_leaf = n.node_type == TreeNodeType::Leaf;
+            let v = if is_leaf {
+                with_cfg!(inst.cfg.as_str(), TC => TC::hash_leaf_with_commitment(n.hash, n.last_epoch).0)
+            } else {
+                n.hash.0
+            };
+            out.insert(l, (v, is_leaf));
+            if let Some(c) = n.left_child {
+                stack.push(c);
+            }
+            if let Some(c) = n.right_child {
+                stack.push(c);
+            }
+        }
+    }
+    out
+}
+
 pub fn step(ex: &mut Exec, toks: &[&str]) -> Option<String> {
     let op = toks[0];
     // split borrows: take the state out while we work
@@ -832,6 +1230,189 @@ fn step_inner(ex: &mut Exec, st: &mut L1State, op: &str, toks: &[&str]) -> Optio
             if !acc && toks.len() == 2 && x.label_len == 256 && !inst.leaves.contains_key(&x) {
                 let tag = if inst.leaves.is_empty() { "nonmem-complete-empty-tree" } else { "nonmem-complete" };
                 ex.fail_tag("C05", tag, format!("honest non-membership proof rejected for non-member {}", toks[1]));
+            }
+            ex.stats.bump(op, if acc { "acc" } else { "rej" });
+            Some(if acc { "acc".into() } else { "rej".into() })
+        }
+        "adv.lookup" if toks.len() >= 2 => {
+            let inst = st.inst.as_ref()?;
+            let u = AkdLabel(parse_hex(toks[1])?);
+            let Some((mut p, ep, root)) = st.rt.block_on(inst.lookup(&u)) else { return Some("err".into()) };
+            let truth = inst.verify_lookup(root, ep, &u, p.clone()).ok();
+            for e in &toks[2..] {
+                match st.rt.block_on(apply_lookup_edit(inst, &u, &mut p, e)) {
+                    Ok(()) => {}
+                    Err(Some(())) => return Some("err".into()),
+                    Err(None) => return None,
+                }
+            }
+            let r = std::panic::catch_unwind(std::panic::AssertUnwindSafe(|| inst.verify_lookup(root, ep, &u, p)));
+            Some(match r {
+                Err(_) => {
+                    ex.stats.bump(op, "panic");
+                    "panic".into()
+                }
+                Ok(Err(_)) => {
+                    ex.stats.bump(op, "rej");
+                    "rej".into()
+                }
+                Ok(Ok(res)) => {
+                    // oracle (C06): an accepted lookup proof reports the latest version, its value and epoch
+                    if truth.as_ref() != Some(&res) {
+                        ex.fail_tag("C06", "lookup-accepts-non-latest", format!("lookup proof for {} accepted with {} — the label's latest state is {}; edits {:?}", toks[1], show_result(&res), truth.as_ref().map(show_result).unwrap_or("none".into()), &toks[2..]));
+                    }
+                    ex.stats.bump(op, "acc");
+                    format!("ok {}", show_result(&res))
+                }
+            })
+        }
+        "adv.history" | "adv.invent" if toks.len() >= 4 => {
+            let inst = st.inst.as_ref()?;
+            let u = AkdLabel(parse_hex(toks[1])?);
+            let (hp, mode_tok, edits, invent_epoch): (HistoryParams, &str, &[&str], Option<u64>) = if op == "adv.history" {
+                (parse_params(toks[2])?, toks[3], &toks[4..], None)
+            } else {
+                if toks.len() != 5 {
+                    return None;
+                }
+                (parse_params(toks[3])?, toks[4], &[], Some(toks[2].parse().ok()?))
+            };
+            let allow = match mode_tok {
+                "allow" => true,
+                "default" => false,
+                _ => return None,
+            };
+            let vparams = if allow {
+                HistoryVerificationParams::AllowMissingValues { history_params: hp }
+            } else {
+                HistoryVerificationParams::Default { history_params: hp }
+            };
+            let (ep, root) = st.rt.block_on(inst.epoch_hash())?;
+            // the truth: the verified result of the honest, unedited proof
+            let honest = st.rt.block_on(inst.history(&u, hp));
+            let truth: Option<Vec<VerifyResult>> = honest.clone().and_then(|(p, e, h)| inst.verify_history(h, e, &u, p, HistoryVerificationParams::Default { history_params: hp }).ok());
+            let mut p = if let Some(e) = invent_epoch {
+                let l = st.rt.block_on(vrf_node_label(&inst.cfg, &u, VersionFreshness::Fresh, 1))?;
+                let rv = st.rt.block_on(inst.root_value())?;
+                let up = UpdateProof {
+                    epoch: e,
+                    value: AkdValue(vec![]),
+                    version: 1,
+                    existence_vrf_proof: st.rt.block_on(vrf_bytes(&inst.cfg, &u, VersionFreshness::Fresh, 1))?,
+                    existence_proof: MembershipProof { label: l, hash_val: AzksValue(rv), sibling_proofs: vec![] },
+                    previous_version_vrf_proof: None,
+                    previous_version_proof: None,
+                    commitment_nonce: vec![0u8; 32],
+                };
+                match st.rt.block_on(regen_markers(inst, &u, vec![up])) {
+                    Some(p) => p,
+                    None => return Some("err".into()),
+                }
+            } else {
+                match honest {
+                    Some((p, _, _)) => p,
+                    None => return Some("err".into()),
+                }
+            };
+            for e in edits {
+                match st.rt.block_on(apply_hist_edit(inst, &u, &mut p, e)) {
+                    Ok(()) => {}
+                    Err(Some(())) => return Some("err".into()),
+                    Err(None) => return None,
+                }
+            }
+            let r = std::panic::catch_unwind(std::panic::AssertUnwindSafe(|| inst.verify_history(root, ep, &u, p, vparams)));
+            Some(match r {
+                Err(_) => {
+                    ex.stats.bump(op, "panic");
+                    "panic".into()
+                }
+                Ok(Err(_)) => {
+                    ex.stats.bump(op, "rej");
+                    "rej".into()
+                }
+                Ok(Ok(rs)) => {
+                    // oracle (C07): the accepted result equals the true version list for the parameter; a value may
+                    // be empty in its place only when the verifier allowed missing values
+                    let t = truth.clone().unwrap_or_default();
+                    let mut bad: Option<(&str, String)> = None;
+                    if t.len() != rs.len() {
+                        bad = Some(("history-wrong-length", format!("{} entries accepted, the true list has {}", rs.len(), t.len())));
+                    } else {
+                        for (a, b) in rs.iter().zip(t.iter()) {
+                            if a.version != b.version {
+                                bad = Some(("history-wrong-version", format!("version {} where the true list has {}", a.version, b.version)));
+                            } else if a.value != b.value && !(allow && a.value.0.is_empty()) {
+                                bad = Some(("history-wrong-value", format!("wrong value for version {}", a.version)));
+                            } else if a.epoch != b.epoch {
+                                let f1 = allow && a.version == 1 && a.value.0.is_empty();
+                                bad = Some((if f1 { "F1-tombstoned-v1-epoch" } else { "history-wrong-epoch" }, format!("version {} dated {} instead of {}", a.version, a.epoch, b.epoch)));
+                            }
+                        }
+                    }
+                    if let Some((tag, what)) = bad {
+                        ex.fail_tag("C07", tag, format!("history proof for {} ({}, {}) accepted: {}; edits {:?}", toks[1], toks[2], mode_tok, what, edits));
+                    }
+                    ex.stats.bump(op, "acc");
+                    format!("ok {}", rs.iter().map(show_result).collect::<Vec<_>>().join(" "))
+                }
+            })
+        }
+        "adv.audit" if toks.len() >= 2 => {
+            let inst = st.inst.as_ref()?;
+            let ep: u64 = toks[1].parse().ok()?;
+            let Some(ap) = st.rt.block_on(inst.audit(ep, ep + 1)) else { return Some("err".into()) };
+            let mut proof = ap.proofs.into_iter().next()?;
+            proof.inserted.sort_by_key(|e| show_label(&e.label));
+            proof.unchanged_nodes.sort_by_key(|e| show_label(&e.label));
+            let mut end_rebuilt = false;
+            let mut plus = 0u64;
+            for e in &toks[2..] {
+                apply_audit_edit(&mut proof, &mut end_rebuilt, &mut plus, e)?;
+            }
+            let start = *inst.roots.get(&ep)?;
+            let end_epoch = ep + 1 + plus;
+            let cfg = inst.cfg.clone();
+            let end = if end_rebuilt {
+                let mut nodes = proof.unchanged_nodes.clone();
+                nodes.extend(proof.inserted.iter().map(|x| AzksElement {
+                    label: x.label,
+                    value: with_cfg!(cfg.as_str(), TC => AzksValue(TC::hash_leaf_with_commitment(x.value, end_epoch).0)),
+                }));
+                match st.rt.block_on(rebuild(&cfg, nodes, Some(end_epoch - 1))) {
+                    Some((h, _)) => h,
+                    None => return Some("err".into()),
+                }
+            } else {
+                *inst.roots.get(&(ep + 1))?
+            };
+            let acc = with_cfg!(cfg.as_str(), TC => st.rt.block_on(akd::auditor::verify_consecutive_append_only::<TC>(&proof, start, end, end_epoch)).is_ok());
+            if acc && end_rebuilt {
+                // oracle (C09): every leaf committed by the start hash must still be committed by the end hash,
+                // i.e. lie below a surviving element of the rebuilt tree that is a REAL node of the earlier tree
+                let mut nodes = proof.unchanged_nodes.clone();
+                nodes.extend(proof.inserted.iter().map(|x| AzksElement {
+                    label: x.label,
+                    value: with_cfg!(cfg.as_str(), TC => AzksValue(TC::hash_leaf_with_commitment(x.value, end_epoch).0)),
+                }));
+                let survivors = st.rt.block_on(rebuild(&cfg, nodes, Some(end_epoch - 1))).map(|x| x.1).unwrap_or_default();
+                let real = st.rt.block_on(real_nodes(inst, ep));
+                let mut lost = vec![];
+                for (l, (v, is_leaf)) in real.iter() {
+                    if !*is_leaf {
+                        continue;
+                    }
+                    let covered = survivors.iter().any(|s| {
+                        s.label.is_prefix_of(l) && s.label.label_len <= l.label_len && real.get(&s.label).map(|r| r.0 == s.value.0).unwrap_or(false)
+                    });
+                    let _ = v;
+                    if !covered {
+                        lost.push(show_label(l));
+                    }
+                }
+                if !lost.is_empty() {
+                    ex.fail_tag("C09", "audit-accepts-removal", format!("audit proof accepted for epoch {ep}->{} although {} leaf/leaves committed by the start hash are no longer committed by the end hash (e.g. {}); edits {:?}", ep + 1, lost.len(), lost[0], &toks[2..]));
+                }
             }
             ex.stats.bump(op, if acc { "acc" } else { "rej" });
             Some(if acc { "acc".into() } else { "rej".into() })
